@@ -388,6 +388,84 @@ class MatchingMonitor(X.Monitor):
             if sum(1 for i in range(len(ests)) if matchable(i, j)) >= 2:
                 ctx.probe("contested_gt")
                 break
+        self._probe_other_modes(ctx, st, rec, ests, gts, fpv, policy, lab_e, lab_g, fr_e, fr_g)
+
+    def _probe_other_modes(self, ctx, st, rec, ests, gts, fpv, policy, lab_e, lab_g, fr_e, fr_g):
+        """Probe calls: the manager always pairs by centre distance, so the harness calls the real matcher again on
+        the recorded inputs with the other three pairing criteria (scores read from the implementation)."""
+        if len(ests) * len(gts) > 64:
+            return
+        from perception_eval.evaluation.matching import IOU2dMatching, IOU3dMatching, MatchingMode, PlaneDistanceMatching
+
+        kw = rec["kwargs"]
+        orig = X.original("manager", "get_object_results")
+        for mode, cls, smaller in ((MatchingMode.PLANEDISTANCE, PlaneDistanceMatching, True),
+                                   (MatchingMode.IOU2D, IOU2dMatching, False), (MatchingMode.IOU3D, IOU3dMatching, False)):
+            kw2 = dict(kw)
+            kw2["estimated_objects"] = list(ests)
+            kw2["ground_truth_objects"] = list(gts)
+            kw2["matching_mode"] = mode
+            kw2["matchable_thresholds"] = None  # a radius is a distance notion
+            try:
+                out = orig(**kw2)
+            except Exception as e:  # noqa
+                ctx.violate("C01", "no_exception", "get_object_results(%s) raised %s on inputs the centre-distance call accepted" % (mode.value, type(e).__name__),
+                            {"error": str(e)[:200]}, st.index)
+                continue
+            ctx.probe("c02_other_mode_probes")
+            idx_e = {id(o): i for i, o in enumerate(ests)}
+            idx_g = {id(o): j for j, o in enumerate(gts)}
+            pairs, used_e, used_g, bad = [], set(), set(), False
+            for r in out:
+                e, g = r.estimated_object, r.ground_truth_object
+                if id(e) not in idx_e or (g is not None and id(g) not in idx_g):
+                    ctx.violate("C01", "nothing_foreign", "%s matching returns an object that was not in the input" % mode.value, {}, st.index)
+                    bad = True
+                    break
+                if id(e) in used_e or (g is not None and id(g) in used_g):
+                    ctx.violate("C01", "one_to_one", "%s matching uses an object twice" % mode.value, {}, st.index)
+                    bad = True
+                    break
+                used_e.add(id(e))
+                if g is not None:
+                    used_g.add(id(g))
+                    pairs.append((idx_e[id(e)], idx_g[id(g)]))
+                    if fr_e[idx_e[id(e)]] != fr_g[idx_g[id(g)]]:
+                        ctx.violate("C01", "same_frame_only", "%s matching pairs objects of different frames" % mode.value, {}, st.index)
+                elif fpv:
+                    ctx.violate("C01", "fp_validation_drops_unpaired", "%s matching keeps an unpaired estimate in FP validation" % mode.value, {}, st.index)
+            if bad:
+                continue
+            if not fpv and len(used_e) != len(ests):
+                ctx.violate("C01", "complete", "%s matching loses %d input estimate(s)" % (mode.value, len(ests) - len(used_e)), {}, st.index)
+            cache = {}
+
+            def score(i, j, cls=cls, smaller=smaller, cache=cache):
+                if (i, j) not in cache:
+                    v = cls(estimated_object=ests[i], ground_truth_object=gts[j], transforms=kw.get("transforms")).value
+                    cache[(i, j)] = v if smaller else -v
+                return cache[(i, j)]
+
+            def matchable(i, j):
+                return fr_e[i] == fr_g[j]
+
+            def compatible(i, j):
+                return ref.ref_compatible(policy, lab_e[i], lab_g[j])
+
+            blocks = ref.blocking_pairs(len(ests), len(gts), score, matchable, compatible, pairs)
+            if blocks:
+                i, j = blocks[0]
+                ctx.violate("C02", "no_blocking_pair", "%s matching leaves a matchable %s pair although neither member has an equally good partner"
+                            % (mode.value, "compatible" if compatible(i, j) else "incompatible"),
+                            {"score": abs(score(i, j)), "est_label": lab_e[i], "gt_label": lab_g[j], "policy": policy}, st.index)
+                continue
+            cand = sorted(score(i, j) for i in range(len(ests)) for j in range(len(gts)) if matchable(i, j))
+            if not any(b - a <= 1e-9 for a, b in zip(cand, cand[1:])):
+                want = ref.ref_match(len(ests), len(gts), score, matchable, compatible)
+                if want != pairs:
+                    ctx.violate("C02", "exact_greedy", "%s matching differs from the two-stage greedy assignment" % mode.value,
+                                {"want": want[:6], "got": pairs[:6]}, st.index)
+                ctx.probe("c02_other_mode_exact")
 
 
 # ------------------------------------------------------------------------------------------------------
